@@ -254,6 +254,29 @@ func deriveCmdLine(t *Trans) *Derived {
 		}
 		line := fmt.Sprintf("cmd.commit %s %s %s %s %s %s %s %d %s", entriesOut(pre.Index), snapS, brS, anyB, cl, cg, unix, t.TZ, hx([]byte(msg)))
 		return &Derived{Line: line, Impl: impl}
+	case "hash-object":
+		// goit hash-object <file>: the model hashes 'blob <len>\0<bytes>' with its own SHA-1
+		if len(t.Args) != 2 || !argsOK(t.Args[1:]) || strings.HasSuffix(t.Args[1], "/") {
+			return nil
+		}
+		data, ok := pre.Files[cleanArg(t.Args[1])]
+		if !ok || t.Res.Class != "ok" {
+			return nil
+		}
+		return &Derived{Line: "sha " + hx(objContent("blob", data)), Impl: strings.TrimSuffix(t.Res.Stdout, "\n")}
+	case "cat-file":
+		if len(t.Args) != 3 || (t.Args[1] != "-t" && t.Args[1] != "-p") {
+			return nil
+		}
+		x, ok := pre.Objects[t.Args[2]]
+		if !ok || !x.OK || !x.NameOK || (t.Args[1] == "-p" && x.Kind == "tree") || strings.Contains(string(x.Data), "\x1b") {
+			return nil
+		}
+		impl := "err"
+		if t.Res.Class == "ok" {
+			impl = "ok " + hx([]byte(t.Res.Stdout))
+		}
+		return &Derived{Line: fmt.Sprintf("cmd.cat-file %s %s", t.Args[1], hx(objContent(x.Kind, x.Data))), Impl: impl}
 	case "config":
 		// goit config [--global] <section>.<key> <value>: the rewritten file, as it loads again
 		global := false
@@ -314,7 +337,8 @@ func deriveCmdLine(t *Trans) *Derived {
 		switch {
 		case len(t.Args) == 1:
 		case len(t.Args) == 3 && t.Args[1] == "-n":
-			v, err := strconv.ParseInt(t.Args[2], 10, 64)
+			// pflag parses integers with base 0: 010 is octal eight, 0x10 sixteen, 1_0 ten, +3 three
+			v, err := strconv.ParseInt(t.Args[2], 0, 64)
 			if err != nil {
 				return nil
 			}
